@@ -3,6 +3,7 @@ package rules
 import (
 	"fmt"
 	"go/ast"
+	"go/constant"
 	"go/token"
 	"go/types"
 	"strings"
@@ -284,6 +285,12 @@ func ruleE2(scope func(pkgPath string) bool, ruleID string) func(c *core.Ctx) {
 							c.OK(ruleID, key, s.Pos(), "recovery idiom: the failure branch records state and execution continues on the fallback path")
 							return true
 						}
+						// the error becomes the function's negative answer: a function without an error result returns
+						// its zero value (false, nil, "", 0) on the failure branch and something else on another path
+						if sig != nil && !lastResultIsError(sig) && sig.Results().Len() >= 1 && returnsZeroOnly(info, branch) && returnsNonZero(info, n) {
+							c.OK(ruleID, key, s.Pos(), "the failure is turned into the function's negative answer (zero value returned; the function has no error result and other paths return a different value)")
+							return true
+						}
 						// other ways out: non-nil error return, panic, exit, error added to a sink
 						leaves := false
 						ast.Inspect(branch, func(y ast.Node) bool {
@@ -382,6 +389,65 @@ func chainText(call *ast.CallExpr) string {
 		names = append([]string{id.Name}, names...)
 	}
 	return strings.Join(names, ".")
+}
+
+func isZeroExpr(info *types.Info, e ast.Expr) bool {
+	tv, ok := info.Types[ast.Unparen(e)]
+	if !ok {
+		return false
+	}
+	if tv.IsNil() {
+		return true
+	}
+	if tv.Value != nil {
+		switch tv.Value.Kind() {
+		case constant.Bool:
+			return !constant.BoolVal(tv.Value)
+		case constant.String:
+			return constant.StringVal(tv.Value) == ""
+		case constant.Int, constant.Float:
+			return constant.Sign(tv.Value) == 0
+		}
+	}
+	return false
+}
+
+// returnsZeroOnly: the branch ends in a return statement all of whose results are zero values.
+func returnsZeroOnly(info *types.Info, branch ast.Node) bool {
+	b, ok := branch.(*ast.BlockStmt)
+	if !ok || len(b.List) == 0 {
+		return false
+	}
+	r, ok := b.List[len(b.List)-1].(*ast.ReturnStmt)
+	if !ok || len(r.Results) == 0 {
+		return false
+	}
+	for _, e := range r.Results {
+		if !isZeroExpr(info, e) {
+			return false
+		}
+	}
+	return true
+}
+
+// returnsNonZero: some return statement of the function body (closures excluded) has a result that is not a
+// constant zero value.
+func returnsNonZero(info *types.Info, body ast.Node) bool {
+	found := false
+	ast.Inspect(body, func(n ast.Node) bool {
+		switch x := n.(type) {
+		case *ast.FuncLit:
+			return false
+		case *ast.ReturnStmt:
+			for _, e := range x.Results {
+				if !isZeroExpr(info, e) {
+					found = true
+				}
+			}
+		}
+		return !found
+	})
+	return found
 }
 
 func returnsObj(info *types.Info, body ast.Node, obj types.Object) bool {
